@@ -19,7 +19,16 @@ import (
 	"time"
 )
 
-const Repo = "/repo"
+// Repo is the tree the programs are built from. VERIF_REPO redirects it to
+// a scratch worktree while seeded changes are tried out (development only;
+// registered commands never set it, and packages linked into the harness
+// itself always come from /repo).
+var Repo = func() string {
+	if r := os.Getenv("VERIF_REPO"); r != "" {
+		return r
+	}
+	return "/repo"
+}()
 
 type Env struct {
 	Prop    string
